@@ -112,6 +112,7 @@ HELPERS = {
     "zz_fees.py": "from nada_dsl import *\n\n@nada_fn\ndef fee(x: SecretInteger) -> SecretInteger:\n    return x + x\n",
     "audit_trail.py": "from nada_dsl import *\n\ndef total(xs):\n    return sum(xs)\n",
     "a.py": "from nada_dsl import *\n\ndef pick(c, x, y):\n    return c.if_else(x, y)\n",
+    "rates.py": "from nada_dsl import *\n\nFEE = Integer(3)\nHUNDRED = Integer(100)\n",
 }
 MULTI_FILE = """from nada_dsl import *
 from pricing_rules import price
@@ -119,6 +120,7 @@ from rounding_rules import rnd
 from zz_fees import fee
 from audit_trail import total
 from a import pick
+from rates import FEE, HUNDRED
 
 
 def nada_main():
@@ -130,8 +132,48 @@ def nada_main():
     z = fee(y)
     t = total([x, y, z])
     w = pick(a < b, t, z)
-    return [Output(w, "w", p), Output(t, "t", p)]
+    r = a * FEE / HUNDRED
+    return [Output(w, "w", p), Output(t, "t", p), Output(r + Integer(10), "r", p)]
 """
+
+
+def programmatic_entry_points(tmp, src, helpers, reference_mir):
+    """compile_script / compile_string called from Python, three times each in one new interpreter (the helper modules
+    are imported once and stay cached, as Python does): every result must be the MIR the command line produced, up to the
+    renaming of operation ids, literal names and source locations"""
+    import subprocess
+    import sys
+    import json as _json
+    from .c08 import normalize
+    viol = []
+    d = os.path.join(tmp, "pep")
+    os.makedirs(d, exist_ok=True)
+    path = os.path.join(d, "prog_multi.py")
+    with open(path, "w", encoding="utf-8") as f:
+        f.write(src)
+    for name, text in helpers.items():
+        with open(os.path.join(d, name), "w", encoding="utf-8") as f:
+            f.write(text)
+    ref = normalize(strip_locations(reference_mir))
+    n = 0
+    for via in ("script", "string"):
+        env = dict(os.environ, PYTHONPATH=os.pathsep.join([core.REPO, os.path.join(core.VERIF, "harness"), d]), PYTHONDONTWRITEBYTECODE="1")
+        env.pop("NADA_TIMER", None)
+        p = subprocess.run([sys.executable, "-m", "nv.real.fresh_hist", via, path, path, path], cwd=tmp, env=env,
+                           capture_output=True, text=True, timeout=300)
+        try:
+            outs = _json.loads(p.stdout)
+        except ValueError:
+            raise core.Infra(f"fresh_hist failed: {(p.stderr or p.stdout)[-300:]}")
+        for k, o in enumerate(outs):
+            n += 1
+            if "mir" not in o:
+                viol.append(("entry-points", f"compile_{via}, call {k + 1} in one process: {o.get('err')}: {o.get('msg')}; the command line compiles the same text"))
+                continue
+            dd = cm.first_diff(ref, normalize(strip_locations(o["mir"])))
+            if dd:
+                viol.append(("entry-points", f"compile_{via}, call {k + 1} in one process: MIR differs from the command line's MIR of the same text: {dd}"))
+    return viol, n
 
 FAILING = {
     "missing entry point": "from nada_dsl import *\n\ndef main():\n    return []\n",
@@ -227,6 +269,13 @@ def run(res, tier):
         results.append(result)
         if result != "Success":
             viol.append(("envelope", f"the multi-file program does not compile: {result}"))
+        else:
+            dm = os.path.join(tmp, "pmulti")
+            refobj, _ = parse_line(cli([os.path.join(dm, "prog_multi.py")], dm, {"PYTHONHASHSEED": "0"})[1])
+            if refobj and refobj.get("result") == "Success":
+                v2, n2 = programmatic_entry_points(tmp, MULTI_FILE, HELPERS, refobj["_mir"])
+                viol += v2
+                evals += n2
         for kind, text in viol:
             res.violation({"property": "C13", "kind": kind, "text": text, "source": MULTI_FILE, "helpers": HELPERS}, f"multi-file program: {kind}: {text}"[:400])
         # file names: two programs (one of them importing standard-library modules) under every listed name
